@@ -745,6 +745,8 @@ class Interp:
             d = dict(b[2])
             if name in d:
                 return d[name]
+        if isinstance(b, tuple) and b and b[0] == "tuple" and name in ("first", "second") and len(b[1]) == 2:
+            return b[1][0 if name == "first" else 1]
         if isinstance(b, tuple) and b and b[0] == "deref":
             return ("fld", b[1], name)
         return ("fld", b, name)
